@@ -40,8 +40,15 @@ def r1(ctx, rep):
     rep.rule("C12.R1", "every panic-capable site belongs to a reviewed invariant class; no class has grown", floor=240)
     cg, syn = ctx.cg, ctx.syn
     sites = panics.collect(cg, syn)
-    counts = panics.class_counts(sites)
     rows = {tuple(r["key"]): r for r in load("c12_classes.json")["rows"]}
+    # sites with a local proof (the presence test dominates the unwrap) need no reviewed class; only those of classes that are new or
+    # have grown are examined, so a reviewed class keeps its count
+    raw = panics.class_counts(sites)
+    proven = [s_ for s_ in sites if (rows.get(s_["key"]) is None or raw[s_["key"]] > rows[s_["key"]]["count"]) and presence_tested(s_, syn)]
+    if proven:
+        rep.note(f"{len(proven)} site(s) discharged locally (unwrap dominated by is_some / is_ok): " + ", ".join(f"{p_['fn'].split('::')[-1]}:{p_['l']}" for p_ in proven[:5]))
+        sites = [s_ for s_ in sites if not any(s_ is p_ for p_ in proven)]
+    counts = panics.class_counts(sites)
     by_key = {}
     for s in sites:
         by_key.setdefault(s["key"], []).append(s)
@@ -71,6 +78,31 @@ def r1(ctx, rep):
                   f"an `is_x()` test or a match arm of the accessor's variant), now only {d['guarded']}: a guard was weakened or removed, so the site can panic",
                   file=ex["file"], line=ex["l"], fn=ex["fn"])
     rep.note(f"{len(sites)} panic-capable sites in {len(counts)} classes")
+
+
+def presence_tested(sdict, syn, _cache={}):
+    """Is this `R.unwrap()` / `R.expect(..)` only reached when `R.is_some()` / `R.is_ok()` was tested (then-branch), or `R.is_none()` /
+    `R.is_err()` was tested and refuted (else-branch, or after an `if R.is_none() { diverge }`)?  R is compared up to `.as_ref()` /
+    `.as_mut()` / `.clone()` / `.as_deref()`: a local proof that needs no reviewed class."""
+    import guards
+    if sdict["cls"] not in ("Option::unwrap", "Option::expect", "Result::unwrap", "Result::expect"):
+        return False
+    sf = syn.fn_at(sdict["file"], sdict["l"])
+    if not sf or "body" not in sf:
+        return False
+    par = _cache.get(id(sf))
+    if par is None:
+        par = _cache[id(sf)] = guards.parents(sf["body"])
+    strip = lambda t: re.sub(r"(\.(as_ref|as_mut|clone|cloned|as_deref|as_deref_mut|borrow)\(\))+$", "", t.lstrip("&*"))
+    pos, neg = ("is_some", "is_none") if sdict["cls"].startswith("Option") else ("is_ok", "is_err")
+    for n in walk(sf["body"]):
+        if n.get("k") == "mcall" and n["m"] in ("unwrap", "expect") and sdict["l"] in (n["l"], n.get("ml", n["l"])):
+            R = strip(show(n["r"], maxdepth=10))
+            if not R or "(" in R.replace("()", ""):
+                continue        # only places (locals, fields), not calls with arguments: their value can differ between the test and the use
+            if guards.side_of(par, n, guards.polarity_of(f"{R}.{pos}()")) is True or guards.side_of(par, n, guards.polarity_of(f"{R}.{neg}()")) is False:
+                return True
+    return False
 
 
 def guarded_counts(sites, syn):
